@@ -25,6 +25,11 @@ type Target struct {
 	// values of the Go expressions Yield there (the rest of the function is not tied)
 	Upto  string
 	Yield []string
+	// the same by position instead of by the names of locals (a local may be renamed at will):
+	// YieldArgs = these arguments of the call of Upto; YieldRet = these results of the function's
+	// return statements (which must all return the same expressions there)
+	YieldArgs []int
+	YieldRet  []int
 	// trace target: a function without a result whose effects are calls of itself and outputs.
 	// The translation is the list of events (RgLib.rg_ev) in execution order; everything else in
 	// the body must be pure.  Helpers of the same package that have no result are inlined.
@@ -79,8 +84,8 @@ func Targets() []Target {
 		{Pkg: "render", Key: "mcInterpolate"},
 		{Pkg: "render", Key: "mcToTriangles"},
 		{Pkg: "render", Key: "layerYZ.Get"},
-		{Pkg: "render", Key: "marchingCubes", Upto: "evalOnce.Do", Yield: []string{"base", "inc", "steps"}},
-		{Pkg: "render", Key: "MarchingCubesUniform.Render", Upto: "marchingCubes", Yield: []string{"bb", "meshInc"}},
+		{Pkg: "render", Key: "marchingCubes", Upto: "newLayerYZ", YieldArgs: []int{0, 1, 2}},
+		{Pkg: "render", Key: "MarchingCubesUniform.Render", Upto: "marchingCubes", YieldArgs: []int{1, 2}},
 		// render/march2.go
 		{Pkg: "render", Key: "msInterpolate"},
 		{Pkg: "render", Key: "msToLines"},
@@ -93,8 +98,8 @@ func Targets() []Target {
 			Trace: &TraceSpec{Self: "dcache3.processCube", Out: set("sdf.Triangle3Writer.Write")}},
 		{Pkg: "render", Key: "dcache2.processSquare", Opaque: []string{"dcache2.isEmpty", "dcache2.evaluate"},
 			Trace: &TraceSpec{Self: "dcache2.processSquare", Out: set("sdf.Line2Writer.Write")}},
-		{Pkg: "render", Key: "dcache3.evaluate", Upto: "dc.read", Yield: []string{"v"}},
-		{Pkg: "render", Key: "dcache2.evaluate", Upto: "dc.read", Yield: []string{"v"}},
+		{Pkg: "render", Key: "dcache3.evaluate", Upto: "dcache3.read", YieldRet: []int{0}},
+		{Pkg: "render", Key: "dcache2.evaluate", Upto: "dcache2.read", YieldRet: []int{0}},
 		// render/delaunay.go
 		{Pkg: "render", Key: "TriangleIByIndex.Less"},
 		{Pkg: "render", Key: "TriangleI.Canonical"},
@@ -542,7 +547,14 @@ func (g *gen) translate(p *pkg, key string, opt *Target) (*Def, error) {
 	}
 	note := ""
 	if prefix {
-		note = fmt.Sprintf("; the values of (%s) before the first call of %s", strings.Join(opt.Yield, ", "), opt.Upto)
+		what := strings.Join(opt.Yield, ", ")
+		if len(opt.YieldArgs) != 0 {
+			what = fmt.Sprintf("arguments %v of that call", opt.YieldArgs)
+		}
+		if len(opt.YieldRet) != 0 {
+			what = fmt.Sprintf("results %v of the function", opt.YieldRet)
+		}
+		note = fmt.Sprintf("; the values of (%s) before the first call of %s", what, opt.Upto)
 	}
 	if mutator {
 		note = "; the receiver after the call"
